@@ -2,13 +2,29 @@
 hints (plain, Optional, list[...], dict[...], Union, forward-reference strings, Any, bare tuple),
 with and without a run() return annotation.  Dataclasses do not check hints at run time, so any
 field may hold a scalar, a task or a (nested) collection — the same (type, parameter) can hold a
-single task in one object and a collection in another."""
+single task in one object and a collection in another.
+
+GM, GN, GO, GP, GQ are declared with `mlflow_run=True` (the option only says how a task of the type is EXECUTED; the
+decorator does not need mlflow, which is imported when such a task runs - the diagram never runs one): annotated run()
+return types incl. generic aliases (`float`, `dict[str, float]`, `Optional[list[int]]`, `list[GM]`) and an un-annotated run().
+
+`DECLARED_RUN[name]` is the run function AS WRITTEN in the class body, captured by `@declared` before `labtech.task`
+sees the class: the run signature the diagram has to show is the one of this function, whatever the decorator leaves
+in the class."""
 from typing import Any, Optional, Union
 
 import labtech
 
+DECLARED_RUN = {}
+
+
+def declared(cls):
+    DECLARED_RUN[cls.__name__] = cls.__dict__['run']
+    return cls
+
 
 @labtech.task(cache=None)
+@declared
 class GA:
     x: int
     a: Any = None
@@ -18,6 +34,7 @@ class GA:
 
 
 @labtech.task(cache=None)
+@declared
 class GB:
     one: Optional[GA]
     many: list[GA] = ()
@@ -27,6 +44,7 @@ class GB:
 
 
 @labtech.task(cache=None)
+@declared
 class GC:
     m: dict[str, Any]
     p: 'forward hint'  # noqa: F722  (stays a string: format_type passes strings through)
@@ -37,12 +55,14 @@ class GC:
 
 
 @labtech.task(cache=None)
+@declared
 class GD:
     def run(self) -> None:
         return None
 
 
 @labtech.task(cache=None)
+@declared
 class GE:
     u: tuple
     v: Any
@@ -53,5 +73,55 @@ class GE:
         return GA(x=0)
 
 
-TYPES = [GA, GB, GC, GD, GE]
+@labtech.task(cache=None, mlflow_run=True)
+@declared
+class GM:
+    seed: int
+    dep: Optional[GA] = None
+
+    def run(self) -> float:
+        return self.seed / 2
+
+
+@labtech.task(cache=None, mlflow_run=True, max_parallel=1)
+@declared
+class GN:
+    items: list[GM] = ()
+    extra: Any = None
+
+    def run(self) -> dict[str, float]:
+        return {}
+
+
+@labtech.task(mlflow_run=True)
+@declared
+class GO:
+    a: Any = None
+
+    def run(self) -> Optional[list[int]]:
+        return None
+
+
+@labtech.task(cache=None, mlflow_run=True)
+@declared
+class GP:
+    one: Any = None
+    two: tuple = ()
+
+    def run(self):
+        return 0
+
+
+@labtech.task(cache=None, mlflow_run=True)
+@declared
+class GQ:
+    t: Any = None
+
+    def run(self) -> list[GM]:
+        return []
+
+
+BASE_TYPES = [GA, GB, GC, GD, GE]
+MLFLOW_TYPES = [GM, GN, GO, GP, GQ]
+TYPES = BASE_TYPES + MLFLOW_TYPES
 BY_NAME = {t.__name__: t for t in TYPES}
